@@ -25,6 +25,11 @@ def norm(name):
     return name.lower().rstrip('_')
 
 
+def alias_base(name):
+    m = re.match(r'^(.*)__\d+$', name)
+    return m.group(1) if m else None
+
+
 def ref_name_for(cxxname, prog):
     """C++ function name -> reference unit name"""
     cands = [cxxname, cxxname.replace('decay0_', ''), cxxname.lower(), cxxname.replace('decay0_', '').lower()]
@@ -108,6 +113,7 @@ class Pairing:
         f = self.db['funcs'][name]
         T = self.db['types']
         key = norm(name.replace('decay0_', '').split('__')[0])
+        key = {'randomize_particle': 'particle'}.get(key, key)
         cid = self.callee_id(key)
         vp = value_params(f)
         if any(k == '?' for _, _, k, _ in vp):
@@ -124,9 +130,14 @@ class Pairing:
         while len(args) < NA:
             args.append('0.0')
         o = 0
+        vnames = [nm for (_, nm, kind, ct) in vp if kind == 'v']
         for (_, nm, kind, ct) in vp:
             if kind == 'o':
-                L.append('  *%s = (%s)__CPROVER_uninterpreted_out(%d, %d, %s);' % (nm, ct, cid, o, ', '.join(args[:NA])))
+                uf = '(%s)__CPROVER_uninterpreted_out(%d, %d, %s)' % (ct, cid, o, ', '.join(args[:NA]))
+                if key in REFINE_TDLEV and len(vnames) >= 2 and re.match(r'^t[cC]', vnames[-2]) and re.match(r'^th', vnames[-1]):
+                    # leaf fact (L0 contract, both sides' leaf bodies): an instantaneous level decays at its creation time
+                    uf = '(%s > 0.0 ? %s : %s)' % (vnames[-1], uf, vnames[-2])
+                L.append('  *%s = %s;' % (nm, uf))
                 o += 1
         L.append('  tr_x_n = k + 1; epoch_x = epoch_x + 1; idx_x = 0;')
         if f.ret != 'void':
@@ -169,9 +180,13 @@ class Pairing:
         while len(args) < NA:
             args.append('0.0')
         o = 0
+        vnames = [a for a, (kind, ct) in zip(u.args, shape) if kind == 'v']
         for a, (kind, ct) in zip(u.args, shape):
             if kind == 'o':
-                L.append('  *%s = (%s)__CPROVER_uninterpreted_out(%d, %d, %s);' % (a, ct, cid, o, ', '.join(args[:NA])))
+                uf = '(%s)__CPROVER_uninterpreted_out(%d, %d, %s)' % (ct, cid, o, ', '.join(args[:NA]))
+                if key in REFINE_TDLEV and len(vnames) >= 2 and re.match(r'^tc', vnames[-2]) and re.match(r'^th', vnames[-1]):
+                    uf = '(%s > 0.0 ? %s : %s)' % (vnames[-1], uf, vnames[-2])
+                L.append('  *%s = %s;' % (a, uf))
                 o += 1
         L.append('  tr_r_n = k + 1; epoch_r = epoch_r + 1; idx_r = 0;')
         if rt != 'void':
@@ -220,6 +235,14 @@ def ctype_of_local(T, t):
         return None
     return c if c in ('double', 'int', '_Bool') else None
 
+
+# pure value functions of the C++ side that have no counterpart unit in the reference (it uses the constants of
+# common/const/ directly): rendered with their real bodies
+INLINE_PURE = ('decay0_emass', 'electron_mass_MeV', 'particle_mass_MeV')
+
+ADMISSIBLE_SWAP = ('decay0_pair',)
+# callees whose out-parameter tdlev equals tclev when thlev <= 0 (the leaf and the four one-line wrappers around it)
+REFINE_TDLEV = ('particle', 'gamma', 'electron', 'positron', 'alpha')
 
 TRUNCATE = {
     # documented admissible difference (C01): the C++ Y90 routine samples the revised pair-positron spectrum; both sides
@@ -297,7 +320,18 @@ def build_pair_query(db, prog, name, pairing=None, extra_cuts=None, propid='C01'
     # ---- callees -------------------------------------------------------------------------------
     stubs = []
     shapes_x = {}
-    for c in sorted(fx.calls):
+    inline_x = []
+    todo = sorted(fx.calls)
+    callees_x = []
+    while todo:
+        c = todo.pop(0)
+        if c in INLINE_PURE and c in db['funcs']:
+            if c not in inline_x:
+                inline_x.append(c)
+                todo += sorted(db['funcs'][c].calls)
+        elif c not in callees_x:
+            callees_x.append(c)
+    for c in sorted(callees_x):
         if c not in db['funcs']:
             raise Unsupported('C++ callee %s not rendered' % c)
         txt, shp = pairing.stub_cxx(c)
@@ -331,6 +365,18 @@ def build_pair_query(db, prog, name, pairing=None, extra_cuts=None, propid='C01'
     lits = set()
     collect_literals(fx, lits)
     collect_literals(fr, lits)
+    for c in INLINE_PURE:
+        if c in db['funcs']:
+            collect_literals(db['funcs'][c], lits)
+    for nm in getattr(fr, 'commons', {}):
+        for v in prog.common_init.get(nm, []):
+            v = v.strip().lower().replace('d', 'e').lstrip('+-')
+            if not re.match(r'^\d+$', v):
+                if v.endswith('.'):
+                    v += '0'
+                if v.startswith('.'):
+                    v = '0' + v
+                lits.add(re.sub(r'\.e', '.0e', v))
     rep = cluster_literals(lits)
     litmap = lambda t: rep.get(t, t)
     ox = bx2c.Opts(uf=True, prefix='x_', hoist=True, litmap=litmap)
@@ -346,7 +392,14 @@ def build_pair_query(db, prog, name, pairing=None, extra_cuts=None, propid='C01'
     vx = {}
     for (pre, nm, t, isref) in fx.params:
         vx[norm(nm)] = ('param', nm, t, isref)
+    aliases = {}
     for (t, nm, did) in fx.locals:
+        ab = alias_base(nm)
+        if ab is not None:
+            # a second C++ variable of the same source name (block-scoped loop counters): related to the same reference
+            # variable; compared only when it changed in the segment (the other one is dead there)
+            aliases.setdefault(norm(ab), []).append((nm, t))
+            continue
         vx.setdefault(norm(nm), ('local', nm, t, False))
     vr = {}
     for (pre, nm, t, isref) in fr.params:
@@ -382,7 +435,17 @@ def build_pair_query(db, prog, name, pairing=None, extra_cuts=None, propid='C01'
                 unrelated.append((key, a[2], b[2]))
                 continue
             cast = '' if ca == cb else '(%s)' % cb
-            both = '  { %s v = nondet_%s(); x_%s = v; r_%s = %sv; }' % (ca, ca, a[1], b[1], cast)
+            al = aliases.get(key, [])
+            both = '  { %s v = nondet_%s(); x_%s = v; r_%s = %sv; %s}' % (ca, ca, a[1], b[1], cast, ''.join('x_%s = v; ' % n_ for n_, t_ in al))
+            if al:
+                G.append('static %s old_%s%s;' % (ca, a[1], ''.join(', old_%s' % n_ for n_, t_ in al)))
+                both = both[:-1] + ' old_%s = v; %s}' % (a[1], ''.join('old_%s = v; ' % n_ for n_, t_ in al))
+                for n_ in [a[1]] + [n_ for n_, t_ in al]:
+                    checks.append((key + '/' + n_, '(x_%s == old_%s || (double)x_%s == (double)r_%s)' % (n_, n_, n_, b[1])))
+                if a[0] == 'param' or b[0] == 'param':
+                    setup_entry.append(both)
+                setup_cut.append(both)
+                continue
             if a[0] == 'param' or b[0] == 'param':
                 setup_entry.append(both)
             setup_cut.append(both)
@@ -400,6 +463,29 @@ def build_pair_query(db, prog, name, pairing=None, extra_cuts=None, propid='C01'
                 unrelated.append((key, v[2], None))
                 continue
             setup_cut.append('  %s_%s = nondet_%s();' % (side, v[1], c))
+    # constants of the reference's common blocks (block data values)
+    for nm, (t_, dims) in sorted(getattr(fr, 'commons', {}).items()):
+        vals = prog.common_init.get(nm)
+        if vals is None:
+            raise Unsupported('common variable %s is read but has no block-data value (state set by another unit)' % nm)
+        def lit(v):
+            v = v.strip().lower().replace('d', 'e')
+            neg = v.startswith('-')
+            v = v.lstrip('+-')
+            if re.match(r'^\d+$', v):
+                return ('-' if neg else '') + v
+            if v.endswith('.'):
+                v += '0'
+            if v.startswith('.'):
+                v = '0' + v
+            v = re.sub(r'\.e', '.0e', v)
+            return ('-' if neg else '') + litmap(v)
+        if dims:
+            st = ' '.join('r_%s[%d] = %s;' % (nm, i, lit(v)) for i, v in enumerate(vals))
+        else:
+            st = 'r_%s = %s;' % (nm, lit(vals[0]))
+        setup_entry.append('  ' + st)
+        setup_cut.append('  ' + st)
     # prng/event parameters of the C++ side
     for (pre, nm, t, isref) in fx.params:
         b = bx2c.strip_cv(t.replace('&', '')).replace('bxdecay0::', '')
@@ -413,6 +499,8 @@ def build_pair_query(db, prog, name, pairing=None, extra_cuts=None, propid='C01'
     parts = [PRELUDE % {'types': th, 'dargs': ', '.join(['double'] * NA), 'NE': NE, 'ND': ND, 'NC': NC, 'NA': NA}]
     parts.append('double nondet_double(void); int nondet_int(void);')
     parts += stubs
+    for c in reversed(inline_x):
+        parts.append(bx2c.Printer(T, bx2c.Opts(uf=True, litmap=litmap)).function(db['funcs'][c]))
     parts.append(dx)
     parts.append(dr)
     parts += G
@@ -458,7 +546,13 @@ def build_pair_query(db, prog, name, pairing=None, extra_cuts=None, propid='C01'
         H.append('    __CPROVER_assert(epoch_x == epoch_r && idx_x == idx_r, "%s: same number of deviates consumed");' % tag)
         H.append('    __CPROVER_assert(tr_x_n == tr_r_n, "%s: same number of emission calls");' % tag)
         for c_ in range(NC):
-            cmpa = ' && '.join('bx_same(tr_x_arg[%d][%d], tr_r_arg[%d][%d])' % (c_, a_, c_, a_) for a_ in range(NA))
+            first = 0
+            swap = ''
+            if name in ADMISSIBLE_SWAP:
+                # documented admissible difference: e+/e- order inside an internal pair
+                first = 1
+                swap = '(bx_same(tr_x_arg[%d][0], tr_r_arg[%d][0]) || (tr_x_arg[%d][0] == 2.0 && tr_r_arg[%d][0] == 3.0) || (tr_x_arg[%d][0] == 3.0 && tr_r_arg[%d][0] == 2.0)) && ' % ((c_,) * 6)
+            cmpa = swap + ' && '.join('bx_same(tr_x_arg[%d][%d], tr_r_arg[%d][%d])' % (c_, a_, c_, a_) for a_ in range(first, NA))
             H.append('    if (%d < tr_x_n && %d < tr_r_n) { __CPROVER_assert(tr_x_id[%d] == tr_r_id[%d], "%s: same callee at call #%d"); '
                      '__CPROVER_assert(%s, "%s: same arguments at call #%d"); }' % (c_, c_, c_, c_, tag, c_ + 1, cmpa, tag, c_ + 1))
         for key, cmp_ in checks:
